@@ -152,135 +152,458 @@ func recvType(fd *ast.FuncDecl) string {
 	return ""
 }
 
-// lockShape: the body starts with <recv>.mu.Lock()/RLock() and either defers the matching unlock
-// right away, or every return statement is immediately preceded by the unlock (and a body that
-// falls off its end finishes with the unlock), with no other unlock anywhere.
-func lockShape(fd *ast.FuncDecl) bool {
-	r := recvName(fd)
-	body := fd.Body.List
-	// a leading `if param == nil { return ... }` guard touches no shared state
-	for len(body) > 0 {
-		is, ok := body[0].(*ast.IfStmt)
-		if !ok || is.Init != nil || is.Else != nil || len(is.Body.List) != 1 {
-			break
+// ---------------------------------------------------------------------------------------------
+// Critical-section analysis (semantic rather than syntactic, so that harmless rewrites — a deferred
+// unlock, a local declared before the lock, a helper that holds the lock, an alias of a field used
+// inside the section — do not change the facts).
+//
+// A method "is one critical section" iff on every path through its body
+//   * the receiver's mutex is acquired at most once and, if acquired, released (explicitly before
+//     the path ends, or by a deferred unlock), never twice;
+//   * every access to a field of the receiver other than the mutex, and every use of a local that
+//     aliases such a field, happens while the mutex is held;
+//   * a call of another method of the receiver while the mutex is held goes to a method that does
+//     not lock; a call while it is not held goes to a method that is itself one critical section
+//     and then counts as this method's section;
+//   * exactly one section in total.
+
+type csState int
+
+const (
+	csBefore csState = iota
+	csHeld
+	csAfter
+)
+
+type csEvent struct {
+	kind string // "read:<field>", "write:<field>", "call:<name>"
+	st   csState
+}
+
+type csAn struct {
+	recv     string
+	meths    map[string]*ast.FuncDecl
+	ok       bool
+	deferred bool
+	sections int
+	unlock   string
+	tainted  map[string]bool
+	events   []csEvent
+	depth    int
+	mutable  map[string]bool // fields written by some method; others are set once at construction
+}
+
+// mutableFields: the receiver fields that some method of the type writes (assignment through the field or
+// through a local alias of it, ++/--, delete, an atomic update through its address) or aliases into a local.
+func mutableFields(meths map[string]*ast.FuncDecl) map[string]bool {
+	out := map[string]bool{}
+	for _, fd := range meths {
+		a := &csAn{recv: recvName(fd), tainted: map[string]bool{}}
+		alias := map[string]string{}
+		root := func(e ast.Expr) string {
+			f := a.rootField(e)
+			if strings.HasPrefix(f, "~") {
+				return alias[f[1:]]
+			}
+			return f
 		}
-		be, ok := is.Cond.(*ast.BinaryExpr)
-		if !ok || be.Op != token.EQL || exprString(be.Y) != "nil" {
-			break
-		}
-		if _, isRet := is.Body.List[0].(*ast.ReturnStmt); !isRet {
-			break
-		}
-		body = body[1:]
-	}
-	if len(body) == 0 {
-		return false
-	}
-	var unlock string
-	switch callName(body[0]) {
-	case r + ".mu.Lock":
-		unlock = r + ".mu.Unlock"
-	case r + ".mu.RLock":
-		unlock = r + ".mu.RUnlock"
-	default:
-		return false
-	}
-	if len(body) > 1 && deferName(body[1]) == unlock {
-		// no explicit unlock may follow
-		ok := true
-		ast.Inspect(&ast.BlockStmt{List: body}, func(n ast.Node) bool {
-			if es, isE := n.(*ast.ExprStmt); isE && callName(es) == unlock {
-				ok = false
+		ast.Inspect(fd.Body, func(x ast.Node) bool {
+			switch v := x.(type) {
+			case *ast.AssignStmt:
+				for i, l := range v.Lhs {
+					if id, isId := l.(*ast.Ident); isId {
+						if i < len(v.Rhs) && len(v.Lhs) == len(v.Rhs) && a.pureAlias(v.Rhs[i]) {
+							f := root(v.Rhs[i])
+							a.tainted[id.Name] = true
+							alias[id.Name] = f
+							out[f] = true
+						}
+						continue
+					}
+					if f := root(l); f != "" {
+						out[f] = true
+					}
+				}
+			case *ast.IncDecStmt:
+				if f := root(v.X); f != "" {
+					out[f] = true
+				}
+			case *ast.CallExpr:
+				n := exprString(v.Fun)
+				if n == "delete" && len(v.Args) > 0 {
+					if f := root(v.Args[0]); f != "" {
+						out[f] = true
+					}
+				}
+				if strings.HasPrefix(n, "atomic.") && len(v.Args) > 0 {
+					if u, ok := v.Args[0].(*ast.UnaryExpr); ok && u.Op == token.AND {
+						if f := root(u.X); f != "" {
+							out[f] = true
+						}
+					}
+				}
+				if se, ok := v.Fun.(*ast.SelectorExpr); ok { // typed atomics: r.f.Add / Store / Swap / CompareAndSwap
+					switch se.Sel.Name {
+					case "Add", "Store", "Swap", "CompareAndSwap":
+						if f := root(se.X); f != "" {
+							out[f] = true
+						}
+					}
+				}
 			}
 			return true
 		})
-		return ok
 	}
-	unlocks, good := 0, 0
-	ok := true
-	var walk func(list []ast.Stmt, top bool)
-	walk = func(list []ast.Stmt, top bool) {
-		for i, s := range list {
-			if callName(s) == unlock {
-				unlocks++
-				// must be followed by a return, or be the last statement of the top-level body
-				if i+1 < len(list) {
-					if _, isRet := list[i+1].(*ast.ReturnStmt); isRet {
-						good++
-					} else if isVarDeclOnly(list[i+1:]) {
-						good++
-					}
-				} else if top {
-					good++
-				}
-			}
-			if _, isRet := s.(*ast.ReturnStmt); isRet {
-				if !precededByUnlock(list, i, unlock) {
-					ok = false
-				}
-			}
-			switch v := s.(type) {
-			case *ast.IfStmt:
-				walk(v.Body.List, false)
-				if eb, isB := v.Else.(*ast.BlockStmt); isB {
-					walk(eb.List, false)
-				}
-			case *ast.ForStmt:
-				walk(v.Body.List, false)
-			case *ast.RangeStmt:
-				walk(v.Body.List, false)
-			case *ast.BlockStmt:
-				walk(v.List, false)
-			}
-		}
-	}
-	walk(body, true)
-	if _, endsInReturn := body[len(body)-1].(*ast.ReturnStmt); !endsInReturn {
-		if callName(body[len(body)-1]) != unlock {
-			ok = false
-		}
-	}
-	return ok && unlocks > 0 && unlocks == good
+	delete(out, "mu")
+	return out
 }
 
-// `var t T` declarations between the unlock and the return do not touch shared state.
-func isVarDeclOnly(list []ast.Stmt) bool {
-	for i, s := range list {
-		if _, isRet := s.(*ast.ReturnStmt); isRet {
-			return i > 0
+func (a *csAn) isLock(name string) (string, bool) {
+	switch name {
+	case a.recv + ".mu.Lock":
+		return a.recv + ".mu.Unlock", true
+	case a.recv + ".mu.RLock":
+		return a.recv + ".mu.RUnlock", true
+	}
+	return "", false
+}
+
+// rootField returns the receiver field an expression is rooted at ("content" for rb.content.items[i]),
+// or a tainted local's name prefixed with "~".
+func (a *csAn) rootField(e ast.Expr) string {
+	switch v := e.(type) {
+	case *ast.SelectorExpr:
+		if id, ok := v.X.(*ast.Ident); ok && id.Name == a.recv {
+			return v.Sel.Name
 		}
-		ds, ok := s.(*ast.DeclStmt)
-		if !ok {
-			return false
+		return a.rootField(v.X)
+	case *ast.IndexExpr:
+		return a.rootField(v.X)
+	case *ast.StarExpr:
+		return a.rootField(v.X)
+	case *ast.ParenExpr:
+		return a.rootField(v.X)
+	case *ast.UnaryExpr:
+		return a.rootField(v.X)
+	case *ast.Ident:
+		if a.tainted[v.Name] {
+			return "~" + v.Name
 		}
-		gd, ok := ds.Decl.(*ast.GenDecl)
-		if !ok || gd.Tok != token.VAR {
-			return false
+	}
+	return ""
+}
+
+// pureAlias: the expression is a selector chain (no index, no call) rooted at a receiver field or a
+// tainted local: assigning it to a local makes that local an alias of shared state.
+func (a *csAn) pureAlias(e ast.Expr) bool {
+	switch v := e.(type) {
+	case *ast.SelectorExpr:
+		if id, ok := v.X.(*ast.Ident); ok && id.Name == a.recv {
+			return v.Sel.Name != "mu" && (a.mutable == nil || a.mutable[v.Sel.Name])
 		}
-		for _, sp := range gd.Specs {
-			if len(sp.(*ast.ValueSpec).Values) != 0 {
+		return a.pureAlias(v.X)
+	case *ast.Ident:
+		return a.tainted[v.Name]
+	case *ast.ParenExpr:
+		return a.pureAlias(v.X)
+	case *ast.UnaryExpr:
+		return v.Op == token.AND && a.pureAlias(v.X)
+	}
+	return false
+}
+
+// check records every shared access inside node n made in state st.
+func (a *csAn) check(n ast.Node, st csState) {
+	if n == nil {
+		return
+	}
+	ast.Inspect(n, func(x ast.Node) bool {
+		switch v := x.(type) {
+		case *ast.CallExpr:
+			name := exprString(v.Fun)
+			if se, ok := v.Fun.(*ast.SelectorExpr); ok {
+				if id, ok := se.X.(*ast.Ident); ok && id.Name == a.recv {
+					if callee, isM := a.meths[se.Sel.Name]; isM {
+						a.callMethod(callee, st)
+						for _, arg := range v.Args {
+							a.check(arg, st)
+						}
+						return false
+					}
+				}
+			}
+			if _, isL := a.isLock(name); isL || name == a.recv+".mu.Unlock" || name == a.recv+".mu.RUnlock" {
+				// a lock operation buried in an expression or nested statement we do not understand
+				a.ok = false
 				return false
 			}
+			a.events = append(a.events, csEvent{"call:" + name, st})
+		case *ast.SelectorExpr:
+			if id, ok := v.X.(*ast.Ident); ok && id.Name == a.recv {
+				if v.Sel.Name != "mu" && a.mutable[v.Sel.Name] {
+					a.events = append(a.events, csEvent{"read:" + v.Sel.Name, st})
+					if st != csHeld {
+						a.ok = false
+					}
+				}
+				return false
+			}
+		case *ast.Ident:
+			if a.tainted[v.Name] {
+				if st != csHeld {
+					a.ok = false
+				}
+			}
 		}
-	}
-	return false
+		return true
+	})
 }
 
-func precededByUnlock(list []ast.Stmt, i int, unlock string) bool {
-	for j := i - 1; j >= 0; j-- {
-		if callName(list[j]) == unlock {
-			return true
+func hasLockCall(fd *ast.FuncDecl) bool {
+	found := false
+	ast.Inspect(fd.Body, func(x ast.Node) bool {
+		if c, ok := x.(*ast.CallExpr); ok {
+			n := exprString(c.Fun)
+			if strings.HasSuffix(n, ".mu.Lock") || strings.HasSuffix(n, ".mu.RLock") {
+				found = true
+			}
 		}
-		ds, ok := list[j].(*ast.DeclStmt)
-		if !ok {
-			return false
+		return true
+	})
+	return found
+}
+
+func (a *csAn) callMethod(callee *ast.FuncDecl, st csState) {
+	if a.depth > 3 {
+		a.ok = false
+		return
+	}
+	if st == csHeld {
+		if hasLockCall(callee) {
+			a.ok = false // would self-deadlock / is not one section
+			return
 		}
-		gd, ok := ds.Decl.(*ast.GenDecl)
-		if !ok || gd.Tok != token.VAR {
-			return false
+		// the callee runs inside this section: its accesses are accesses made while held
+		sub := &csAn{recv: recvName(callee), meths: a.meths, ok: true, tainted: map[string]bool{}, depth: a.depth + 1, mutable: a.mutable}
+		sub.walk(callee.Body.List, csHeld)
+		for _, e := range sub.events {
+			a.events = append(a.events, csEvent{e.kind, csHeld})
+		}
+		return
+	}
+	// not held: the callee must be one critical section on its own, which becomes ours
+	sub := analyse(callee, a.meths, a.depth+1)
+	if !sub.ok || sub.sections != 1 {
+		a.ok = false
+		return
+	}
+	if st == csAfter {
+		a.ok = false // a second section
+		return
+	}
+	a.sections++
+	for _, e := range sub.events {
+		a.events = append(a.events, e)
+	}
+}
+
+// walk interprets a statement list from state st; it returns the state at the end and whether every
+// path through the list ended in a return.
+func (a *csAn) walk(list []ast.Stmt, st csState) (csState, bool) {
+	for _, s := range list {
+		switch v := s.(type) {
+		case *ast.ExprStmt:
+			name := callName(v)
+			if un, isL := a.isLock(name); isL {
+				if st != csBefore {
+					a.ok = false
+				}
+				st = csHeld
+				a.unlock = un
+				a.sections++
+				continue
+			}
+			if a.unlock != "" && name == a.unlock {
+				if st != csHeld || a.deferred {
+					a.ok = false
+				}
+				st = csAfter
+				continue
+			}
+			if name == a.recv+".mu.Unlock" || name == a.recv+".mu.RUnlock" {
+				a.ok = false
+				continue
+			}
+			// a call of a receiver method that is a whole critical section moves us past our section
+			before := a.sections
+			a.check(v.X, st)
+			if a.sections > before && st == csBefore {
+				st = csAfter
+			}
+		case *ast.DeferStmt:
+			if a.unlock != "" && exprString(v.Call.Fun) == a.unlock {
+				if st != csHeld {
+					a.ok = false
+				}
+				a.deferred = true
+				continue
+			}
+			a.check(v.Call, csAfter) // runs at return: treated as outside the section
+		case *ast.ReturnStmt:
+			before := a.sections
+			for _, r := range v.Results {
+				a.check(r, st)
+			}
+			if a.sections > before && st == csBefore {
+				st = csAfter
+			}
+			if st == csHeld && !a.deferred {
+				a.ok = false // returns with the mutex held
+			}
+			return st, true
+		case *ast.AssignStmt:
+			before := a.sections
+			for _, r := range v.Rhs {
+				a.check(r, st)
+			}
+			for i, l := range v.Lhs {
+				if id, isId := l.(*ast.Ident); isId {
+					if i < len(v.Rhs) && len(v.Lhs) == len(v.Rhs) && a.pureAlias(v.Rhs[i]) {
+						a.tainted[id.Name] = true
+					}
+					continue
+				}
+				if f := a.rootField(l); f != "" {
+					a.events = append(a.events, csEvent{"write:" + f, st})
+					if st != csHeld {
+						a.ok = false
+					}
+				}
+				a.check(l, st)
+			}
+			if a.sections > before && st == csBefore {
+				st = csAfter
+			}
+		case *ast.IncDecStmt:
+			if f := a.rootField(v.X); f != "" {
+				a.events = append(a.events, csEvent{"write:" + f, st})
+				if st != csHeld {
+					a.ok = false
+				}
+			}
+			a.check(v.X, st)
+		case *ast.DeclStmt:
+			a.check(v, st)
+		case *ast.IfStmt:
+			if v.Init != nil {
+				st, _ = a.walk([]ast.Stmt{v.Init}, st)
+			}
+			before := a.sections
+			a.check(v.Cond, st)
+			if a.sections > before && st == csBefore {
+				st = csAfter
+			}
+			s1, t1 := a.walk(v.Body.List, st)
+			s2, t2 := st, false
+			switch e := v.Else.(type) {
+			case *ast.BlockStmt:
+				s2, t2 = a.walk(e.List, st)
+			case *ast.IfStmt:
+				s2, t2 = a.walk([]ast.Stmt{e}, st)
+			}
+			switch {
+			case t1 && t2:
+				return st, true
+			case t1:
+				st = s2
+			case t2:
+				st = s1
+			default:
+				if s1 != s2 {
+					a.ok = false
+				}
+				st = s1
+			}
+		case *ast.ForStmt:
+			if v.Init != nil {
+				st, _ = a.walk([]ast.Stmt{v.Init}, st)
+			}
+			a.check(v.Cond, st)
+			if v.Post != nil {
+				a.walk([]ast.Stmt{v.Post}, st)
+			}
+			s1, t1 := a.walk(v.Body.List, st)
+			if !t1 && s1 != st {
+				a.ok = false
+			}
+		case *ast.RangeStmt:
+			a.check(v.X, st)
+			s1, t1 := a.walk(v.Body.List, st)
+			if !t1 && s1 != st {
+				a.ok = false
+			}
+		case *ast.BlockStmt:
+			var t bool
+			st, t = a.walk(v.List, st)
+			if t {
+				return st, true
+			}
+		case *ast.SwitchStmt:
+			if v.Init != nil {
+				st, _ = a.walk([]ast.Stmt{v.Init}, st)
+			}
+			a.check(v.Tag, st)
+			st = a.clauses(v.Body.List, st)
+		case *ast.TypeSwitchStmt:
+			a.check(v.Assign, st)
+			st = a.clauses(v.Body.List, st)
+		case *ast.BranchStmt, *ast.EmptyStmt:
+		default:
+			a.check(s, st)
 		}
 	}
-	return false
+	return st, false
+}
+
+func (a *csAn) clauses(list []ast.Stmt, st csState) csState {
+	out, have := st, false
+	for _, c := range list {
+		cc, ok := c.(*ast.CaseClause)
+		if !ok {
+			a.ok = false
+			continue
+		}
+		for _, e := range cc.List {
+			a.check(e, st)
+		}
+		s1, t1 := a.walk(cc.Body, st)
+		if t1 {
+			continue
+		}
+		if have && s1 != out {
+			a.ok = false
+		}
+		out, have = s1, true
+	}
+	if have && out != st {
+		// without a default clause the switch may also be skipped entirely
+		a.ok = false
+	}
+	return st
+}
+
+func analyse(fd *ast.FuncDecl, meths map[string]*ast.FuncDecl, depth int) *csAn {
+	a := &csAn{recv: recvName(fd), meths: meths, ok: true, tainted: map[string]bool{}, depth: depth, mutable: mutableFields(meths)}
+	st, term := a.walk(fd.Body.List, csBefore)
+	if !term && st == csHeld && !a.deferred {
+		a.ok = false
+	}
+	return a
+}
+
+func lockShapeM(fd *ast.FuncDecl, meths map[string]*ast.FuncDecl) bool {
+	a := analyse(fd, meths, 0)
+	return a.ok && a.sections == 1
 }
 
 func methods(f *ast.File, typ string) map[string]*ast.FuncDecl {
@@ -293,20 +616,34 @@ func methods(f *ast.File, typ string) map[string]*ast.FuncDecl {
 	return out
 }
 
-// Len() is exactly `return atomic.LoadInt64(&rb.len)`.
+// Len() makes exactly one access to shared state: an atomic load of the counter, without the mutex.
 func lenIsAtomicLoad(fd *ast.FuncDecl) bool {
-	if fd == nil || len(fd.Body.List) != 1 {
+	if fd == nil {
 		return false
 	}
-	rs, ok := fd.Body.List[0].(*ast.ReturnStmt)
-	if !ok || len(rs.Results) != 1 {
-		return false
-	}
-	c, ok := rs.Results[0].(*ast.CallExpr)
-	if !ok || exprString(c.Fun) != "atomic.LoadInt64" || len(c.Args) != 1 {
-		return false
-	}
-	return exprString(c.Args[0]) == "&"+recvName(fd)+".len"
+	r := recvName(fd)
+	loads, others := 0, 0
+	ast.Inspect(fd.Body, func(x ast.Node) bool {
+		switch v := x.(type) {
+		case *ast.CallExpr:
+			n := exprString(v.Fun)
+			if n == "atomic.LoadInt64" && len(v.Args) == 1 && exprString(v.Args[0]) == "&"+r+".len" {
+				loads++
+				return false
+			}
+			if n == r+".len.Load" {
+				loads++
+				return false
+			}
+		case *ast.SelectorExpr:
+			if id, ok := v.X.(*ast.Ident); ok && id.Name == r {
+				others++
+				return false
+			}
+		}
+		return true
+	})
+	return loads == 1 && others == 0
 }
 
 // every write of rb.len in the file goes through atomic.AddInt64 (no plain assignment).
@@ -330,48 +667,58 @@ func lenOnlyAtomicWrites(f *ast.File) bool {
 	return ok
 }
 
-// Registry.add: Lock first; the duplicate test and the insertion are both before the first
-// top-level Unlock; proc.Start() is after it.
-func registryAddAtomic(fd *ast.FuncDecl) bool {
+// Registry.add: exactly one critical section, in which the table is both tested and written; the
+// process is started after the section (never inside it). The section may be inline or a helper.
+func registryAddAtomic(fd *ast.FuncDecl, meths map[string]*ast.FuncDecl) bool {
 	if fd == nil {
 		return false
 	}
-	r := recvName(fd)
-	body := fd.Body.List
-	if len(body) == 0 || callName(body[0]) != r+".mu.Lock" {
+	a := analyse(fd, meths, 0)
+	if !a.ok || a.sections != 1 {
 		return false
 	}
-	firstUnlock, check, insert, start := -1, -1, -1, -1
-	for i, s := range body {
-		if callName(s) == r+".mu.Unlock" && firstUnlock < 0 {
-			firstUnlock = i
-		}
-		if is, ok := s.(*ast.IfStmt); ok && check < 0 {
-			// `if _, ok := r.lookup[id]; ok {`
-			if as, ok := is.Init.(*ast.AssignStmt); ok && len(as.Rhs) == 1 && strings.HasPrefix(exprString(as.Rhs[0]), r+".lookup[") {
-				check = i
+	read, write, startAfter, startElsewhere := false, false, false, false
+	for _, e := range a.events {
+		switch {
+		case e.kind == "read:lookup" && e.st == csHeld:
+			read = true
+		case e.kind == "write:lookup" && e.st == csHeld:
+			write = true
+		case strings.HasPrefix(e.kind, "call:") && strings.HasSuffix(e.kind, ".Start"):
+			if e.st == csAfter {
+				startAfter = true
+			} else {
+				startElsewhere = true
 			}
 		}
-		if as, ok := s.(*ast.AssignStmt); ok && len(as.Lhs) == 1 && strings.HasPrefix(exprString(as.Lhs[0]), r+".lookup[") {
-			insert = i
-		}
-		if strings.HasSuffix(callName(s), ".Start") {
-			start = i
-		}
 	}
-	return check > 0 && insert > check && firstUnlock > insert && start > firstUnlock
+	return read && write && startAfter && !startElsewhere
 }
 
-// number of atomic.AddInt64(&<recv>.len, …) calls in a method body
-func lenAdds(fd *ast.FuncDecl) int {
-	if fd == nil {
+// number of updates of the length counter a call of the method performs syntactically
+// (atomic.AddInt64(&<recv>.len, …) or <recv>.len.Add(…)), following calls to other methods of the receiver
+func lenAddsM(fd *ast.FuncDecl, meths map[string]*ast.FuncDecl, depth int) int {
+	if fd == nil || depth > 3 {
 		return -1
 	}
+	r := recvName(fd)
 	n := 0
 	ast.Inspect(fd.Body, func(x ast.Node) bool {
-		if c, ok := x.(*ast.CallExpr); ok && exprString(c.Fun) == "atomic.AddInt64" && len(c.Args) == 2 &&
-			exprString(c.Args[0]) == "&"+recvName(fd)+".len" {
-			n++
+		if c, ok := x.(*ast.CallExpr); ok {
+			name := exprString(c.Fun)
+			if name == "atomic.AddInt64" && len(c.Args) == 2 && exprString(c.Args[0]) == "&"+r+".len" {
+				n++
+			} else if name == r+".len.Add" {
+				n++
+			} else if se, ok := c.Fun.(*ast.SelectorExpr); ok {
+				if id, ok := se.X.(*ast.Ident); ok && id.Name == r {
+					if callee, isM := meths[se.Sel.Name]; isM {
+						if k := lenAddsM(callee, meths, depth+1); k > 0 {
+							n += k
+						}
+					}
+				}
+			}
 		}
 		return true
 	})
@@ -391,7 +738,7 @@ func shapeList(ms map[string]*ast.FuncDecl, names []string) string {
 	var parts []string
 	for _, n := range names {
 		fd, ok := ms[n]
-		parts = append(parts, fmt.Sprintf("(%s, %s)", leanStr(n), leanBool(ok && lockShape(fd))))
+		parts = append(parts, fmt.Sprintf("(%s, %s)", leanStr(n), leanBool(ok && lockShapeM(fd, ms))))
 	}
 	return "[" + strings.Join(parts, ", ") + "]"
 }
@@ -445,11 +792,11 @@ func main() {
 	fmt.Fprintf(&b, "def ringLockShape : List (String × Bool) := %s\n", shapeList(rm, []string{"Push", "Pop", "PopN"}))
 	fmt.Fprintf(&b, "def ringLenIsAtomicLoad : Bool := %s\n", leanBool(lenIsAtomicLoad(rm["Len"])))
 	fmt.Fprintf(&b, "/-- how many times each method updates the length counter (its linearization point) -/\n")
-	fmt.Fprintf(&b, "def ringLenAdds : List (String × Nat) := [(\"Push\", %d), (\"Pop\", %d), (\"PopN\", %d)]\n", lenAdds(rm["Push"]), lenAdds(rm["Pop"]), lenAdds(rm["PopN"]))
+	fmt.Fprintf(&b, "def ringLenAdds : List (String × Nat) := [(\"Push\", %d), (\"Pop\", %d), (\"PopN\", %d)]\n", lenAddsM(rm["Push"], rm, 0), lenAddsM(rm["Pop"], rm, 0), lenAddsM(rm["PopN"], rm, 0))
 	fmt.Fprintf(&b, "def ringLenOnlyAtomicWrites : Bool := %s\n", leanBool(lenOnlyAtomicWrites(ring)))
 	fmt.Fprintf(&b, "def registryLockShape : List (String × Bool) := %s\n", shapeList(gm, []string{"Remove", "get", "getByID"}))
 	fmt.Fprintf(&b, "/-- Registry.add tests and inserts under one critical section and starts the process after it -/\n")
-	fmt.Fprintf(&b, "def registryAddAtomic : Bool := %s\n", leanBool(registryAddAtomic(gm["add"])))
+	fmt.Fprintf(&b, "def registryAddAtomic : Bool := %s\n", leanBool(registryAddAtomic(gm["add"], gm)))
 	fmt.Fprintf(&b, "def safemapLockShape : List (String × Bool) := %s\n", shapeList(mm, smNames))
 	b.WriteString("\nend HW.Generated\n")
 	if err := os.WriteFile(*out, []byte(b.String()), 0o644); err != nil {
